@@ -36,10 +36,14 @@ def one_dl_subscriber(ex, db):
 
 
 class DLBound:
+    # the thorough tier lifts the one-dead-letter-subscriber bound where dead-lettering is the subject (C06) and for the loss
+    # property (C01); the other properties re-run the same transitions and keep the bound (the lifted exploration is 8x the cost)
+    LIFT = ('C01', 'C06')
+
     def prepare_db(self, ex, db):
-        if not self.thorough:
+        if not (self.thorough and getattr(self, 'prop', None) in self.LIFT):
             one_dl_subscriber(ex, db)
-            self.bounds = {'dead-letter subscribers': '<= 1 live subscription per dead-letter topic (quick tier)'}
+            self.bounds = {'dead-letter subscribers': '<= 1 live subscription per dead-letter topic'}
 
 
 def idptr(ex, v):
